@@ -32,7 +32,13 @@ def execute(sc, fixed=None, log=None, fixed_sched=None):
     mod = ir.Module(txt)
     t0 = time.time()
     posmap = None
-    if sc.mt:
+    if sc.mt and (fixed or fixed_sched):
+        # replay: positions must be the ones of the symbolic run, so redo its ranking first (deterministic)
+        from . import mt
+        m0, _, _ = execute(sc)
+        posmap = m0.sched.posmap if m0.sched.posmap is not None else m0.sched.ranks
+        m = _execute1(sc, mod, fixed, dict(posmap), log, fixed_sched=fixed_sched, allow_missing=True)
+    elif sc.mt:
         from . import mt
         m = _execute1(sc, mod, fixed, None, None)
         keys = {t: set(ks) for t, ks in m.sched.keys.items()}
@@ -59,11 +65,12 @@ def execute(sc, fixed=None, log=None, fixed_sched=None):
     return m, mod, {'compile_s': ct, 'exec_s': time.time() - t0, 'ir_path': path}
 
 
-def _execute1(sc, mod, fixed, posmap, log, strict=False, fixed_sched=None):
+def _execute1(sc, mod, fixed, posmap, log, strict=False, fixed_sched=None, allow_missing=False):
     term.reset()
     m = Machine(mod, nthreads=max(1, sc.threads), unwind=sc.unwind, unwind_map=sc.unwind_map)
     m.uninit_zero = sc.uninit_zero
     m.posmap = posmap
+    m.allow_missing = allow_missing
     m.fixed_sched = fixed_sched if posmap is not None else None
     m.tolerant = bool(sc.mt and posmap is None and not strict)
     if fixed: m.fixed = dict(fixed)
